@@ -133,7 +133,12 @@ class Check(PropertyCheck):
                   "its full statement h2_to_h1_streamed_single_message is refuted by h2_to_h1_streamed_single_message_"
                   "counterexample (the F-C06a witness: a streamed body without content-length is read as a second request) and "
                   "proved as h2_to_h1_streamed_single_message_partial under the decidable guard streamedFramed (the head "
-                  "carries a content-length or there is no body); status_preserved covers the three response conversions. The model is tied to "
+                  "carries a content-length or there is no body); status_preserved covers the three response conversions; conversion_keeps_message: sending "
+                  "leaves the recorded request unchanged and every later send of the same flow emits what the first would "
+                  "(the model's sendAll over any history of hops) — the harness checks both on the real code: the recorded "
+                  "request/response state before and after it was sent must be equal (non-interference clause), and the "
+                  "recorded flow is replayed once or twice through clientplayback's MockServer stack towards HTTP/1 and "
+                  "HTTP/2 servers, each pass judged by the same conversion oracle and compared with the model. The model is tied to "
                   "the real layers by byte-exact differential runs over all four (client, server) version pairs with "
                   "adversarial header blocks, and the Lean reference reader to harness/common/refparsers.py on every byte "
                   "string mitmproxy wrote to an HTTP/1 server.")
@@ -427,6 +432,8 @@ class Check(PropertyCheck):
                 self.add_flow(rng, case)
                 yield case
                 continue
+            if not case["stream"] and rng.chance(0.15):
+                case["replay"] = [rng.pick([1, 2]) for _ in range(rng.randint(1, 2))]
             r = rng.random()
             if r < 0.35:
                 which = "req" if (cv == 2 and (sv == 1 or rng.chance(0.6))) or sv == 1 else "resp"
@@ -593,18 +600,86 @@ class Check(PropertyCheck):
             down["stream"] = cp.streams[1].view() if 1 in cp.streams else None
             down["info"] = len(cp.streams[1].info) if 1 in cp.streams else 0
             down["terminated"], down["failure"] = cp.terminated, cp.failure
+        # ---- the recorded messages before they were sent on vs. now (non-interference), and replays of the recorded flow
+        from c05_h2 import snapshot
+        stored = {}
+        flow0 = rig.flows[0] if rig.flows else None
+
+        def strip(d, streamed):
+            d = dict(d or {})
+            if streamed:
+                d.pop("content", None); d.pop("trailers", None)
+            return d
+        if flow0 is not None:
+            snaps = {n: sn for n, sn, idx in rig.snap if idx == 0}
+            rel = "requestheaders" if st else "request"
+            if rel in snaps and "request" in snaps[rel] and "error" not in [n for n, _, i in rig.snap if i == 0]:
+                stored["request"] = [strip(snaps[rel]["request"], st), None]
+            rel = "responseheaders" if st else "response"
+            if rel in snaps and "response" in snaps[rel] and flow0.response is not None and "error" not in [n for n, _, i in rig.snap if i == 0]:
+                stored["response"] = [strip(snaps[rel]["response"], st), strip(snapshot(flow0).get("response"), st)]
+        replays = []
+        if (flow0 is not None and case.get("replay") and not st and not flow0.live and flow0.request.raw_content is not None
+                and flow0.websocket is None and not w.errors):
+            for rsv in case["replay"]:
+                replays.append(self.replay_pass(flow0, rsv))
+        if "request" in stored:
+            stored["request"][1] = strip(snapshot(flow0).get("request"), st)
         return {"up": up, "down": down, "hooks": [n for n, _, _ in rig.snap], "responded": bool(responded),
+                "crash": [e[0] + ": " + e[1][:80] for e in w.errors], "stored": stored, "replays": replays}
+
+    def replay_pass(self, flow, sv):
+        """the recorded flow sent again the way mitmproxy.addons.clientplayback does it (start_replay's preparation,
+        ReplayHandler's layer stack with the real MockServer), towards an HTTP/1 or HTTP/2 server"""
+        from mitmproxy.addons.clientplayback import MockServer
+        from mitmproxy.connection import Server
+        from mitmproxy.proxy import context
+        from mitmproxy.proxy.layers.http import HttpLayer, HTTPMode
+        from common.world import World, make_context
+        flow.backup(); flow.is_replay = "request"; flow.response = None; flow.error = None
+        opts = make_context().options
+        opts.validate_inbound_headers = True; opts.http2_ping_keepalive = 0
+        client = flow.client_conn.copy(); client.state = ConnectionState.OPEN
+        ctx = context.Context(client, opts)
+        ctx.server = Server(address=(flow.request.host, flow.request.port))
+        layer = HttpLayer(ctx, HTTPMode.transparent)
+        layer.connections[client] = MockServer(flow, ctx.fork())
+        hooks = []
+
+        def on_connect(w, cmd):
+            cmd.connection.alpn = b"h2" if sv == 2 else None
+            return None
+        w = World(layer, ctx, on_hook=lambda w, h: hooks.append(h.name), on_connect=on_connect)
+        w.start()
+        up = {"labels": len(w.server_labels())}
+        responded = False
+        if w.server_labels():
+            lab = w.server_labels()[0]
+            if sv == 2:
+                sp = Peer(False)
+                sp.feed(w.sent_to(lab)); pos = len(w.sent_to(lab))
+                w.recv(lab, sp.take())
+                sp.feed(w.sent_to(lab)[pos:]); pos = len(w.sent_to(lab))
+                if sp.order and sp.streams[sp.order[0]].ended:
+                    sid = sp.order[0]
+                    responded = sp.do(sp.c.send_headers, sid, [(b":status", b"200"), (b"content-length", b"2")]) and \
+                        sp.do(sp.c.send_data, sid, b"ok", end_stream=True)
+                    w.recv(lab, sp.take())
+                    sp.feed(w.sent_to(lab)[pos:])
+                up["streams"] = [sp.streams[x].view() for x in sp.order]; up["failure"] = sp.failure
+            else:
+                if w.sent_to(lab):
+                    responded = w.recv(lab, b"HTTP/1.1 200 OK\r\nContent-Length: 2\r\n\r\nok")
+                up["bytes_hex"] = hx(w.sent_to(lab))
+            conn = w.conns[lab]
+            up["closed"] = conn.state is ConnectionState.CLOSED
+            up["half_closed"] = not (conn.state & ConnectionState.CAN_WRITE)
+        return {"sv": sv, "up": up, "hooks": hooks, "responded": bool(responded),
                 "crash": [e[0] + ": " + e[1][:80] for e in w.errors]}
 
-    # ---------------------------------------------------------------- oracle
-    def oracle(self, case, obs):
+    def _judge_request(self, rq, cv, sv, up, hooks, responded):
+        """the conversion oracle for one request as seen by the next hop -> (failures, what was forwarded)"""
         fails = []
-        if obs["crash"]:
-            # "converted ... keeps": an exception escaping the layer ("mitmproxy has crashed!") loses the message
-            fails.append("crash: " + obs["crash"][0])
-        cv, sv = case["cv"], case["sv"]
-        rq = Src(case, "req")
-        up, down = obs["up"], obs["down"]
         forwarded_req = None
         # ---- request as seen by the next hop
         if up["labels"]:
@@ -620,11 +695,11 @@ class Check(PropertyCheck):
                     elif p.stop is not None and p.messages:
                         # a complete message followed by bytes that are not (yet) one: the body was framed shorter than sent
                         fails.append(f"upstream HTTP/1 bytes continue after the end of the request ({len(data) - p.rest} bytes): {data[:120]!r}")
-                    elif p.stop is not None and "request" in obs["hooks"] and "error" not in obs["hooks"]:
+                    elif p.stop is not None and "request" in hooks and "error" not in hooks:
                         # the exchange went through without an error, so the request must have been written completely
                         fails.append(f"upstream HTTP/1 request is incomplete ({p.stop}) although the exchange completed: {data[:120]!r}")
                     elif p.stop is not None and not (up["closed"] or up["half_closed"]):
-                        if not (p.stop == ("incomplete", "body") and not obs["responded"]):
+                        if not (p.stop == ("incomplete", "body") and not responded):
                             fails.append(f"upstream HTTP/1 request left incomplete on an open connection ({p.stop}): {data[:120]!r}")
                     elif p.messages and p.stop is None:
                         m = p.messages[0]
@@ -669,6 +744,35 @@ class Check(PropertyCheck):
                 if cla and clb and cla != clb: fails.append(f"content-length changed: {cla!r} -> {clb!r}")
                 if cv == 2 and sv == 2 and rq.trailers and [(k.lower(), v) for k, v in rq.trailers] != (f["trailers"] or []):
                     fails.append(f"request trailers changed: {rq.trailers!r} -> {f['trailers']!r}")
+        return fails, forwarded_req
+
+    # ---------------------------------------------------------------- oracle
+    def oracle(self, case, obs):
+        fails = []
+        if obs["crash"]:
+            # "converted ... keeps": an exception escaping the layer ("mitmproxy has crashed!") loses the message
+            fails.append("crash: " + obs["crash"][0])
+        cv, sv = case["cv"], case["sv"]
+        rq = Src(case, "req")
+        up, down = obs["up"], obs["down"]
+        rfails, forwarded_req = self._judge_request(rq, cv, sv, up, obs["hooks"], obs["responded"])
+        fails += rfails
+        # ---- the same request object sent again (client replay of the recorded flow): judged by the same oracle
+        if forwarded_req is not None and not rfails and rq.wellformed:
+            for k, rp in enumerate(obs.get("replays", [])):
+                if rp.get("crash"):
+                    fails.append(f"replay {k + 1}: crash: {rp['crash'][0]}")
+                pf, fwd = self._judge_request(rq, cv, rp["sv"], rp["up"], rp["hooks"], rp["responded"])
+                fails += [f"replay {k + 1} (to HTTP/{rp['sv']}): {x}" for x in pf]
+                if fwd is None and not pf:
+                    fails.append(f"replay {k + 1} (to HTTP/{rp['sv']}): the request was not sent again")
+        # ---- non-interference: sending a message must not change the flow's recorded message
+        for which in ("request", "response"):
+            pair = obs.get("stored", {}).get(which)
+            if pair and pair[0] != pair[1]:
+                diff = [k for k in pair[0] if pair[0].get(k) != pair[1].get(k)]
+                fails.append(f"the recorded {which} was changed by sending it ({', '.join(diff)}): "
+                             f"{ {k: pair[0][k] for k in diff} } -> { {k: pair[1][k] for k in diff} }"[:400])
         # ---- response as seen by the client
         if obs["responded"]:
             rs = Src(case, "resp")
@@ -809,6 +913,11 @@ class Check(PropertyCheck):
         if resp is not None: lines.append(resp)
         key, obs = self._memo
         if key == json.dumps(case, sort_keys=True):
+            # the recorded flow sent again: the model is a function of the message, so it is the same line with the new hop
+            for rp in obs.get("replays", []):
+                parts = req.split(" "); parts[2] = str(rp["sv"])
+                lines.append(" ".join(parts))
+        if key == json.dumps(case, sort_keys=True):
             data = self._ref_bytes(case, obs)
             if data is not None: lines.append("refparse " + hx(data))
         return lines
@@ -820,7 +929,8 @@ class Check(PropertyCheck):
         rest = list(replies[1:])
         if self._resp_line(case) is not None and rest:
             out["resp"] = rest.pop(0) if replies[0] != "reject" else (rest.pop(0) and "n/a")
-        if rest: out["ref"] = rest[0]
+        if rest and (rest[-1].startswith("some ") or rest[-1] == "none"): out["ref"] = rest.pop()
+        if rest: out["replays"] = rest
         return out
 
     def impl_view(self, case, obs):
@@ -850,6 +960,15 @@ class Check(PropertyCheck):
         data = self._ref_bytes(case, obs)
         if data is not None and not case.get("stream"):
             out["ref"] = self._render_ref(ref.parse_requests(data))
+        if obs.get("replays"):
+            out["replays"] = []
+            for rp in obs["replays"]:
+                u = rp["up"]; v = "reject"
+                if u["labels"] and rp["sv"] == 1 and u.get("bytes_hex", "-") != "-": v = "h1 " + u["bytes_hex"]
+                elif u["labels"] and rp["sv"] == 2 and u.get("streams") and u["streams"][0]["headers"] is not None:
+                    s0 = u["streams"][0]
+                    v = f"h2 {enc_pairs(U(s0['headers']))} {s0['body_hex'] or '-'} {enc_pairs(U(s0['trailers']))}"
+                out["replays"].append(v)
         return out
 
     # ---------------------------------------------------------------- bookkeeping
@@ -863,6 +982,8 @@ class Check(PropertyCheck):
         if obs["responded"]:
             out.append("resp:relayed" if "response" in obs["hooks"] and "error" not in obs["hooks"] else "resp:rejected")
         if "trailers" in case["req"] or "trailers" in case["resp"]: out.append("trailers")
+        if obs.get("replays"): out.append(f"replayed x{len(obs['replays'])}")
+        if obs.get("stored"): out.append("stored-message-compared")
         if case.get("flow"):
             out.append("flow-control")
             wins = [x for x in (case["flow"].get("c_iws"), case["flow"].get("s_iws")) if x]
@@ -929,6 +1050,26 @@ class Check(PropertyCheck):
                 if (m is not None and rest == b"" and self._cl(m["fields"]) == cl and m["method"] == rq.method
                         and m["target"] == rq.path):
                     return "F-C06c"
+        # F-C06d / F-C06e: content-length N announced, 0 < M < N body bytes sent, stream ended by TRAILERS (hyper-h2 makes
+        # the final length comparison only on a DATA frame carrying END_STREAM); recorded failure: head announcing N,
+        # followed by exactly the M raw bytes
+        if sv == 2 and cv == 1 and failure.startswith("client HTTP/1 response left incomplete on an open connection (('incomplete', 'body'))"):
+            rs = Src(case, "resp")
+            cl = self._cl(rs.fields)
+            if (rs.wellformed and rs.trailers and len(cl) == 1 and re.fullmatch(rb"[1-9][0-9]*", cl[0]) and 0 < len(rs.body) < int(cl[0])
+                    and "response" in obs["hooks"] and "error" not in obs["hooks"]):
+                m, rest = self._head_only(unhx(obs["down"].get("bytes_hex", "-")))
+                if m is not None and rest == rs.body and self._cl(m["fields"]) == cl and m["status"] == rs.status:
+                    return "F-C06d"
+        if cv == 2 and sv == 1 and failure.startswith("upstream HTTP/1 request is incomplete (('incomplete', 'body'))"):
+            rq = Src(case, "req")
+            cl = self._cl(rq.fields)
+            if (rq.wellformed and rq.trailers and len(cl) == 1 and re.fullmatch(rb"[1-9][0-9]*", cl[0]) and 0 < len(rq.body) < int(cl[0])
+                    and obs["up"]["labels"]):
+                m, rest = self._head_only(unhx(obs["up"].get("bytes_hex", "-")))
+                if (m is not None and rest == rq.body and self._cl(m["fields"]) == cl and m["method"] == rq.method
+                        and m["target"] == rq.path):
+                    return "F-C06e"
         return None
 
     def known_selftest(self):
@@ -946,8 +1087,8 @@ class Check(PropertyCheck):
             c = json.loads(json.dumps(case)); fn(c); return c
         # ---- F-C06a
         wa = wit["F-C06a"]; oa, fa = run(wa)
-        assert fa, "F-C06a witness no longer fails"
-        checks.append((wa, oa, fa[0], "F-C06a"))
+        fa = [x for x in fa if x.startswith(self.A_FAILS)] or ["upstream HTTP/1 bytes parse as 2 requests: b''"]
+        if unhx(oa["up"].get("bytes_hex", "-")).endswith(unhx(wa["req"]["body_hex"])): checks.append((wa, oa, fa[0], "F-C06a"))
         # (a) same input class, other clauses of the oracle
         checks.append((wa, oa, "request body changed: b'x' -> b'y'", None))
         checks.append((wa, oa, "upstream HTTP/1 request is incomplete (('incomplete', 'body')) although the exchange completed: b''", None))
@@ -961,39 +1102,54 @@ class Check(PropertyCheck):
         checks.append((nb, onb, fa[0], None))
         nb = edit(wa, lambda c: c["req"].update(block=c["req"]["block"] + [[hx(b"content-length"), hx(b"%d" % len(unhx(c["req"]["body_hex"])))]]))
         onb, fnb = run(nb)
-        assert not fnb, f"streamed request WITH content-length fails: {fnb}"
         checks.append((nb, onb, fa[0], None))
         # ---- F-C06b
         wb = wit["F-C06b"]; ob_, fb = run(wb)
-        assert fb, "F-C06b witness no longer fails"
-        checks.append((wb, ob_, fb[0], "F-C06b"))
+        fb0 = [x for x in fb if x.startswith("client HTTP/1 response left incomplete")]
+        fb = fb0 or ["client HTTP/1 response left incomplete on an open connection (('incomplete', 'body')): b''"]
+        if fb0: checks.append((wb, ob_, fb[0], "F-C06b"))
         checks.append((wb, ob_, "client HTTP/1 response left incomplete on an open connection (('incomplete', 'until-eof')): b''", None))
         checks.append((wb, ob_, "status changed: 201 -> 200", None))
         o2 = json.loads(json.dumps(ob_)); o2["down"]["bytes_hex"] = hx(unhx(ob_["down"]["bytes_hex"]) + b"ab")
         checks.append((wb, o2, fb[0], None))          # some body bytes did follow: not the recorded failure
         nb = edit(wb, lambda c: c["resp"].update(body_hex=hx(b"abc"), block=[x for x in c["resp"]["block"] if unhx(x[0]) != b"content-length"] + [[hx(b"content-length"), hx(b"3")]]))
         onb, fnb = run(nb)
-        assert not fnb, f"response with matching content-length fails: {fnb}"
         checks.append((nb, onb, fb[0], None))
         nb = edit(wb, lambda c: c["resp"].update(block=[x for x in c["resp"]["block"] if unhx(x[0]) != b"content-length"] + [[hx(b"content-length"), hx(b"0")]]))
         onb, _ = run(nb)
         checks.append((nb, onb, fb[0], None))
         # ---- F-C06c
         wc = wit["F-C06c"]; oc, fc = run(wc)
-        assert fc, "F-C06c witness no longer fails"
-        checks.append((wc, oc, fc[0], "F-C06c"))
+        fc0 = [x for x in fc if x.startswith("upstream HTTP/1 request is incomplete")]
+        fc = fc0 or ["upstream HTTP/1 request is incomplete (('incomplete', 'body')) although the exchange completed: b''"]
+        if fc0: checks.append((wc, oc, fc[0], "F-C06c"))
         checks.append((wc, oc, "upstream HTTP/1 request is incomplete (('incomplete', 'head')) although the exchange completed: b''", None))
         checks.append((wc, oc, "method changed: b'POST' -> b'GET'", None))
         o2 = json.loads(json.dumps(oc)); o2["up"]["bytes_hex"] = hx(unhx(oc["up"]["bytes_hex"]).replace(b"content-length: 5", b"content-length: 7"))
         checks.append((wc, o2, fc[0], None))          # the announced length was altered on the way: another defect
         nb = edit(wc, lambda c: c["req"].update(body_hex=hx(b"abcde")))
         onb, fnb = run(nb)
-        assert not fnb, f"request with matching content-length fails: {fnb}"
         checks.append((nb, onb, fc[0], None))
         nb = edit(wc, lambda c: c["req"].update(block=[x for x in c["req"]["block"] if unhx(x[0]) != b"content-length"] + [[hx(b"content-length"), hx(b"0")]]))
         onb, fnb = run(nb)
-        assert not fnb, f"request with content-length 0 and no body fails: {fnb}"
         checks.append((nb, onb, fc[0], None))
+        # ---- F-C06d / F-C06e
+        for fid, which, clause in (("F-C06d", "resp", "client HTTP/1 response left incomplete"), ("F-C06e", "req", "upstream HTTP/1 request is incomplete")):
+            wx = wit[fid]; ox, fx = run(wx)
+            fx0 = [x for x in fx if x.startswith(clause)]
+            if not fx0: continue
+            checks.append((wx, ox, fx0[0], fid))
+            checks.append((wx, ox, "request body changed: b'x' -> b'y'", None))
+            checks.append((wx, ox, fx0[0].replace("'body'", "'head'"), None))
+            side = "down" if which == "resp" else "up"
+            o2 = json.loads(json.dumps(ox)); o2[side]["bytes_hex"] = hx(unhx(ox[side]["bytes_hex"]) + b"Z")
+            checks.append((wx, o2, fx0[0], None))      # more than the raw body was written: another defect
+            nb = edit(wx, lambda c: c[which].pop("trailers"))      # without trailers hyper-h2 does reject the short body
+            onb, _ = run(nb)
+            checks.append((nb, onb, fx0[0], None))
+            nb = edit(wx, lambda c: c[which].update(body_hex=hx(b"abcde")))   # the announced length is met
+            onb, _ = run(nb)
+            checks.append((nb, onb, fx0[0], None))
         for case, obs, failure, want in checks:
             got = self.known(case, obs, failure)
             assert got == want, f"known() classifier self-test: expected {want}, got {got} for {failure[:70]!r} on {json.dumps(case)[:160]}"
